@@ -564,6 +564,75 @@ fn skip_char<const N: usize>(inputs: &[String], rep: &mut Report) {
     );
 }
 
+/// A skip type that is not idempotent (at most one blank per application), to tell SKIP = 2 from SKIP = 1.
+type OneSp<'i> = RepMinMax<Str<Sp>, pest_typed::predefined_node::Empty<'i>, 0, 0, 1>;
+
+/// Reference for repetitions whose skip is `OneSp` applied `skip_times` times before every iteration but the first.
+fn rep_model_onesp<E: Elem>(input: &str, init: &[String], skip_times: usize, min: usize, max: Option<usize>) -> Option<(usize, usize, Vec<String>)> {
+    let mut pos = 0;
+    let mut n = 0;
+    let mut stk = init.to_vec();
+    loop {
+        if let Some(m) = max {
+            if n >= m {
+                break;
+            }
+        }
+        let mut p = pos;
+        if n > 0 {
+            for _ in 0..skip_times {
+                if input[p..].starts_with(' ') {
+                    p += 1;
+                }
+            }
+        }
+        match E::model(input, p, &stk) {
+            Some((p2, s2)) => {
+                pos = p2;
+                stk = s2;
+                n += 1;
+            }
+            None => break,
+        }
+    }
+    if n < min || max.map_or(false, |m| min > m) {
+        None
+    } else {
+        Some((pos, n, stk))
+    }
+}
+
+fn skip_counts(inputs: &[String], rep: &mut Report) {
+    macro_rules! one {
+        ($e:ty, $skip:literal, $min:literal, $max:literal) => {{
+            let what = format!("RepMinMax<{}, \" \"{{0,1}}, SKIP={}, MIN={}, MAX={}>", <$e as Elem>::NAME, $skip, $min, $max);
+            compare::<RepMinMax<<$e as Elem>::Node<'_>, OneSp<'_>, $skip, $min, $max>>(
+                &what,
+                inputs,
+                rep,
+                &|i, st| rep_model_onesp::<$e>(i, st, $skip, $min, Some($max)).map(|(e, n, s)| (e, Some(n), s)),
+                &count_top,
+                false,
+            );
+            let what = format!("RepMin<{}, \" \"{{0,1}}, SKIP={}, MIN={}>", <$e as Elem>::NAME, $skip, $min);
+            compare::<RepMin<<$e as Elem>::Node<'_>, OneSp<'_>, $skip, $min>>(
+                &what,
+                inputs,
+                rep,
+                &|i, st| rep_model_onesp::<$e>(i, st, $skip, $min, None).map(|(e, n, s)| (e, Some(n), s)),
+                &count_top,
+                false,
+            );
+        }};
+    }
+    one!(EA, 1, 0, 2);
+    one!(EA, 2, 0, 2);
+    one!(EA, 2, 1, 3);
+    one!(EA, 3, 0, 3);
+    one!(EAB, 2, 0, 2);
+    one!(EPush, 2, 1, 2);
+}
+
 /// An element that replaces the top entry (same depth, other content) before it can fail.
 pub struct EDropPush;
 impl Elem for EDropPush {
@@ -669,6 +738,7 @@ pub fn run(o: &Opts) -> Report {
     all(&inputs, &mut rep);
     all_zero(&inputs, &mut rep);
     zero_width_progress(&inputs, &mut rep);
+    skip_counts(&inputs, &mut rep);
     skip_until::<NeedlesAb>("[\"ab\"]", &inputs, &mut rep);
     skip_until::<NeedlesTwo>("[\"b \", \"aa\"]", &inputs, &mut rep);
     never_failed::<RepMin<Str<A>, Ig, 0, 0>>("RepMin<\"a\",SKIP=0,0>::parse_with", &inputs, &mut rep);
